@@ -161,6 +161,8 @@ def replay(s, which):
     try:
         pieces = N.split_multiple_persons_names(s)
     except Exception as e:  # noqa
+        from pysym.harness import guard_repo_exception
+        guard_repo_exception(e)
         return {"input": s, "observed": f"raised {type(e).__name__}: {e}", "expected": "list of pieces"}
     if which == "conservation":
         if native_conservation(s, pieces):
@@ -298,6 +300,8 @@ def task_recall(L, sigma):
         try:
             keep, again = drv_recall(t)
         except Exception as e:  # noqa
+            from pysym.harness import guard_repo_exception
+            guard_repo_exception(e)
             return {"input": t, "observed": f"raised {type(e).__name__}: {e}", "expected": "pieces"}
         if keep == again and native_conservation(t, keep):
             return None
